@@ -29,6 +29,7 @@ def check(chk, thorough=False):
     chk.run('C20.f', 'R-FLOW', 'a queued bundle is measured at its end and sent from its start; received items get local ids; the channel key names every field of the channel once', lambda ob: c20f(tree, ob), floor=4)
     chk.run('C20.g', 'R-PAIR', 'a received bundle is queued and then announced under one id, taken from a receive counter that only increments (never reused while an earlier bundle may still be queued)', lambda ob: c13f(tree, ob, BAGENT), floor=3)
     chk.run('C20.h', 'R-FLOW', 'the send entry queues a file over exactly the octets passed in (byte-array conversion only)', lambda ob: __import__('sa.props.common', fromlist=['entry_fidelity']).entry_fidelity(tree, ob, 'btpu/agent.py', 'Agent.send_bundle_data'), floor=1)
+    chk.run('C20.i', 'R-TRUTH', 'the MTU applied is the configured one: the configuration loader hands every setting on as read (no clamping)', lambda ob: __import__('sa.props.common', fromlist=['config_verbatim']).config_verbatim(tree, ob, 'btpu/config.py'), floor=2)
     chk.run('C20.e', 'R-TRUTH', 'the end index is tested with "is not None": zero is a legitimate end index', lambda ob: c20e(tree, ob), floor=1)
 
 
@@ -69,12 +70,14 @@ def c20a(tree, ob):
     else:
         ob.site(MSGS, r, 'dissect: payload = length - hints')
     fh = FuncView(tree, MSGS, 'HintHead.extract_padding')
-    r = one([x for x in walk_local(fh.func) if isinstance(x, ast.Return)], 'return in HintHead.extract_padding', ob)
-    pl = fh.value_at(ast.parse('pyld_len', mode='eval').body, r)
-    if pm('data[:pyld_len], data[pyld_len:]', r.value) is None or src(pl) != "self.getfieldval('length')":
-        ob.violate(MSGS, fh.qual, src(r), 'a hint is not cut by its own length', r)
-    else:
-        ob.site(MSGS, r, 'hint cut by its own length')
+    hrets = [x for x in walk_local(fh.func) if isinstance(x, ast.Return)]
+    ob.require(hrets, 'return in HintHead.extract_padding')
+    for r in hrets:
+        pl = fh.value_at(ast.parse('pyld_len', mode='eval').body, r)
+        if pm('data[:pyld_len], data[pyld_len:]', r.value) is None or src(pl) != "self.getfieldval('length')":
+            ob.violate(MSGS, fh.qual, src(r), 'a hint is not cut by its own length (also an empty one: the rest of the datagram is the next hint or the message, not the value of this hint)', r)
+        else:
+            ob.site(MSGS, r, 'hint cut by its own length')
     # hint chain flag: written by self_build, read by hint_cb
     fb = FuncView(tree, MSGS, 'MessageHead.self_build')
     hflag = [n for n in walk_local(fb.func) if isinstance(n, ast.Assign) and src(n.targets[0]) == 'self.flags']
@@ -215,6 +218,17 @@ def c20_timer(tree, ob):
         ob.violate(BAGENT, fc.qual, src(hard[0]), 'cancelling a transfer that is already gone raises KeyError out of the timer callback', hard[0])
     else:
         ob.site(BAGENT, fc.func, 'cancel tolerates a transfer that is already gone')
+    # the timer dies with its transfer: the function that takes a transfer out of the table (completion calls it too) removes
+    # the source, else the timer of a completed transfer fires later and cancels whichever transfer then has that number
+    pops = [n for n in walk_local(fc.func) if isinstance(n, ast.Assign) and pm('self._rx_progres.pop($k, $d)', n.value) is not None and isinstance(n.targets[0], ast.Name)]
+    if pops:
+        var = pops[0].targets[0].id
+        rem = [c for c in calls_in(fc.func) if (call_name(c) or '').endswith('source_remove') and c.args and src(c.args[0]) == var + '.timeout_id']
+        if rem and fc.has(rem[0], var + '.timeout_id is None', False) and fc.has(rem[0], var + ' is None', False):
+            ob.site(BAGENT, rem[0], 'the timeout source is removed together with the transfer')
+        else:
+            ob.violate(BAGENT, fc.qual, 'glib.source_remove({}.timeout_id)'.format(var), 'the reassembly timer of a transfer that leaves the table (completed or cancelled) stays armed: when it fires it cancels a '
+                       'later transfer that reuses the number, which is then never queued', pops[0])
 
 
 def c20d(tree, ob):
